@@ -447,7 +447,7 @@ inline void bloom_memory_case(Rng& r) {
   uint64_t bits = 64 * (1 + r.below(60)) - r.below(64);
   uint16_t nh = static_cast<uint16_t>(1 + r.below(7));
   const uint64_t acc_n = 20 + r.below(300); const double acc_p = 0.01 + r.unit() * 0.2;
-  if (kind == 1) { bits = bloom_filter::builder::suggest_num_filter_bits(acc_n, acc_p); nh = bloom_filter::builder::suggest_num_hashes(acc_n, bits); }
+  if (kind == 1) { bits = bloom_filter::builder::suggest_num_filter_bits(acc_n, acc_p); nh = bloom_filter::builder::suggest_num_hashes(acc_p); }   // the same two public functions initialize_by_accuracy is documented to use
   const size_t size = bloom_filter::get_serialized_size_bytes(bits);
   std::vector<uint64_t> mem(size / 8 + 2, 0x5a5a5a5a5a5a5a5aULL);   // garbage: initialize must overwrite what it uses
   uint8_t* M = reinterpret_cast<uint8_t*>(mem.data());
